@@ -113,7 +113,51 @@ def oracle_rounded_duplicates(rng):
     return None
 
 
+def oracle_conversion_history(rng):
+    """conversions are functions of the polynomial, not of what was asked of it before: as_signomial / as_polynomial / grad / shift after the
+    polynomial went through a relaxation builder (which reads its signomial representative) are what they are for a fresh copy"""
+    import sageopt as so
+    from sageopt.symbolic.polynomials import Polynomial
+    with warnings.catch_warnings():
+        warnings.simplefilter('ignore')
+        for trial in range(3):
+            alpha = np.array([[2, 2], [1, 2], [3, 0], [0, 1], [0, 0]])
+            cvec = np.array([1.0, float(rng.choice([3, 2])), -2.0, float(rng.choice([1, 4])), 5.0])
+            p = Polynomial(alpha, cvec)
+            fresh = Polynomial(alpha.copy(), cvec.copy())
+            how = ('sig_rep', 'poly_relaxation', 'sage_feasibility')[trial]
+            if how == 'sig_rep':
+                _ = p.sig_rep
+            elif how == 'poly_relaxation':
+                so.poly_relaxation(p, form='dual')
+            else:
+                from sageopt.relaxations import sage_polys as sp_
+                sp_.sage_feasibility(p)
+            f, f0 = p.as_signomial(), fresh.as_signomial()
+            for y in ([1.0, 1.0], [0.5, 2.0], [3.0, 0.25]):
+                yv = np.array(y)
+                try:
+                    got, want = float(f(np.log(yv))), float(p(yv))
+                except Exception as e:
+                    return ('after %s was asked of the polynomial, p.as_signomial() is not a numeric signomial any more (coefficients %r): evaluating it raised %r'
+                            % (how, getattr(f, 'c', None), e))
+                if abs(got - want) > 1e-9 * (1 + abs(want)) or abs(float(f0(np.log(yv))) - want) > 1e-9 * (1 + abs(want)):
+                    return ('after %s was asked of the polynomial, p.as_signomial()(log y) = %r at y = %s while p(y) = %r (a fresh copy gives %r)'
+                            % (how, got, y, want, float(f0(np.log(yv)))))
+            g, g0 = p.grad, fresh.grad
+            x = np.array([0.5, -1.5])
+            for i in range(2):
+                if abs(float(g[i](x)) - float(g0[i](x))) > 1e-12 * (1 + abs(float(g0[i](x)))):
+                    return 'after %s was asked of the polynomial, dp/dx%d at %s is %r; for a fresh copy %r' % (how, i, x.tolist(), float(g[i](x)), float(g0[i](x)))
+    return None
+
+
 def run(ctx):
+    why = oracle_conversion_history(ctx.rng)
+    ctx.suites['conversion_history'] = {'cases': 3, 'failure': why}
+    ctx.evaluations += 3
+    if why:
+        ctx.problem('oracle', 'property fails on the implementation: ' + why, inputs={'suite': 'conversion_history'}, failing_input_found=True)
     why = oracle_rounded_duplicates(ctx.rng)
     ctx.suites['rounded_duplicate_rows'] = {'cases': 6, 'failure': why}
     ctx.evaluations += 6
